@@ -44,7 +44,11 @@ def gen_case(rng, i):
     inj = None
     if rng.random() < 0.7:
         inj = {"stage": rng.choice(STAGES), "file": rng.randint(1, n)}
-    return {"kind": "write", "i": i, "n": n, "files": files, "root_force": rng.choice([None, True, False, True]),
+    share = n >= 2 and rng.random() < 0.3
+    if share and inj and rng.random() < 0.6:
+        # a violation on one of several mocks sharing a file, first / middle / last in source order
+        inj = {"stage": rng.choice(["schema-invalid-iface", "schema-invalid-iface", "template-exec", "template-parse"]), "file": rng.choice([1, 1, n, rng.randint(1, n)])}
+    return {"kind": "write", "i": i, "n": n, "files": files, "share": share, "root_force": rng.choice([None, True, False, True]),
             "pkg_force": rng.choice([None, None, True, False]), "inj": inj, "formatter": rng.choice(["goimports", "gofmt", "noop"])}
 
 
@@ -62,10 +66,13 @@ def build(case, root, server, with_injection, all_force):
         p["config"]["force-file-write"] = case["pkg_force"]
     inj = case["inj"] if with_injection else None
     outputs = {}
+    share = bool(case.get("share"))
+    if share:
+        p["config"]["filename"] = "m_all.go"   # all mocks of package p in one output file
     for k in range(1, n + 1):
-        f = case["files"][k - 1]
+        f = case["files"][0 if share else k - 1]
         ic = {"template": f["template"]}
-        if not all_force and f["force"] is not None:
+        if not all_force and f["force"] is not None and not share:
             ic["force-file-write"] = f["force"]
         if inj and inj["file"] == k:
             st = inj["stage"]
@@ -100,7 +107,7 @@ def build(case, root, server, with_injection, all_force):
                 ic["require-template-schema-exists"] = False
                 ic["formatter"] = "gofmt" if case["formatter"] == "noop" else case["formatter"]
         p["interfaces"]["I%d" % k] = {"config": ic}
-        outputs[k] = "out/p/m_I%d.go" % k
+        outputs[k] = "out/p/m_all.go" if share else "out/p/m_I%d.go" % k
     cfg["packages"] = {MOD + "/p": p}
     # a second package with one file; the file-level schema violation lives here
     p2 = {"config": {}, "interfaces": {"Q": None}}
@@ -136,7 +143,9 @@ def eval_case(ctx, case):
     root = core.scratch_module(ctx, dict(files, **BYSTANDERS))
     states = {}
     for k, rel in outputs.items():
-        st = case["files"][k - 1]["state"] if k != "q" else "absent"
+        st = case["files"][0 if case.get("share") else k - 1]["state"] if k != "q" else "absent"
+        if rel in states:
+            continue   # several mocks share this output file
         states[rel] = st
         p = os.path.join(root, rel)
         if st == "absent":
@@ -184,7 +193,7 @@ def eval_case(ctx, case):
     blocked = [rel for rel in outputs.values() if states[rel] != "absent" and not eff_force[rel]]
     dir_clash = [rel for rel in outputs.values() if states[rel] == "dir" and eff_force[rel]]
     must_fail = bool(blocked or dir_clash or inj)
-    tags = ["files=%d" % (case["n"] + 1), "formatter=" + case["formatter"]] + (["inject=" + inj["stage"]] if inj else ["no-fault"]) + \
+    tags = ["files=%d" % len(set(outputs.values())), "formatter=" + case["formatter"]] + (["shared-file-of-%d" % case["n"]] if case.get("share") else []) + (["inject=" + inj["stage"]] if inj else ["no-fault"]) + \
            (["blocked-by-existing"] if blocked else []) + (["dir-at-output"] if dir_clash else []) + ([] if strace else ["no-strace"])
     obs = {"exit": r.exit, "states": states, "effective_force": eff_force, "injected": inj, "must_fail": must_fail,
            "syscall_events": len(r.events), "strace": strace}
@@ -276,6 +285,10 @@ def body(ctx, replay=None):
                     c["inj"] = {"stage": st, "file": 1 + (j % nfiles)}
                     c["root_force"] = True
                     cases.append(c)
+            # a shared output file of 3 mocks: violation on the first, the middle and the last interface, over absent / user / previous content
+            for j, (pos, st0, stage) in enumerate((a, b, c) for a in (1, 2, 3) for b in ("absent", "user", "prev-long") for c in ("schema-invalid-iface", "template-exec")):
+                cases.append({"kind": "write", "i": 30000 + j, "n": 3, "share": True, "inj": {"stage": stage, "file": pos}, "formatter": ["goimports", "gofmt", "noop"][j % 3],
+                              "files": [{"state": st0, "force": None, "template": ["testify", "matryer"][j % 2]}] * 3, "root_force": True, "pkg_force": None})
             # every initial state x force-file-write, without a fault, on a single-file and a multi-file run
             for j, (st, force, nfiles) in enumerate((a, b, c) for a in STATES for b in (True, False) for c in (1, 3)):
                 cases.append({"kind": "write", "i": 20000 + j, "n": nfiles, "inj": None, "formatter": ["goimports", "gofmt", "noop"][j % 3],
